@@ -189,10 +189,10 @@ def prop(r):
     disp = orig.clone()
     before = built.text
     try:
-        with time_limit(10):
+        with time_limit(30):
             run_pass(disp, "dispatch-regions", nb_cores=n)
     except PassTimeout:
-        raise Reject("dispatch-regions did not terminate within 10 s")
+        raise Reject("dispatch-regions did not terminate within 30 s")
     except Exception as e:
         raise Violation(f"dispatch:raises:{type(e).__name__}", dict(error=str(e)[:300], before=before))
     try:
@@ -215,11 +215,11 @@ def prop(r):
         pinned = disp.clone()
         ndisp = sum(1 for k in built.kinds.values() if k != G.NEUTRAL)
         try:
-            with time_limit(10):
+            with time_limit(30):
                 run_pass(pinned, "function-constant-pinning")
             pinned.verify()
         except PassTimeout:
-            raise Reject("function-constant-pinning did not terminate within 10 s")
+            raise Reject("function-constant-pinning did not terminate within 30 s")
         except Exception as e:
             raise Violation(f"pin:raises:{type(e).__name__}", det.done(error=str(e)[:300]))
         det_p = det.plus(pinned=lambda: to_text(pinned))
